@@ -391,7 +391,7 @@ type bufs struct {
 }
 
 func newBufs(max int) *bufs {
-	return &bufs{dst: mon.NewGuard(max), src: mon.NewGuard(max), key: mon.NewGuard(16), key2: mon.NewGuard(16), iv: mon.NewGuard(16)}
+	return &bufs{dst: mon.NewGuard(max), src: mon.NewGuard(max), key: mon.NewGuard(64), key2: mon.NewGuard(64), iv: mon.NewGuard(64)}
 }
 
 func (b *bufs) all() []*mon.Guard { return []*mon.Guard{b.dst, b.src, b.key, b.key2, b.iv} }
@@ -402,11 +402,88 @@ func (b *bufs) free() {
 	}
 }
 
+// placement says where in their guarded regions the buffers of a case live.
+//
+//	hi   every buffer ENDS at the upper guard page (an overrun by one byte faults); with
+//	     an odd length the start is misaligned as well
+//	lo   every buffer STARTS at the lower guard page (an underrun faults); starts are page aligned
+//	mis  chosen start misalignments: src, dst, key and iv/tweak start so/do/ko.. bytes
+//	     after the lower guard page, offsets from {1, 8, 16, 24, 31} with src != dst (16
+//	     is misaligned only for 32-byte loads). hi and lo hand out 16-byte aligned
+//	     starts whenever the length is a multiple of 16, which would hide an aligned
+//	     load or store (MOVDQA/VMOVDQA) applied to caller memory; here it faults.
+type placement struct {
+	kind   int
+	so, do int // start offsets of src and dst (mis)
+	ko     int // index into misOffsets for key, key2, iv (mis)
+}
+
+const (
+	plHi = iota
+	plLo
+	plMis
+)
+
+var misOffsets = []int{1, 8, 16, 24, 31}
+
+// misPlacement derives the offsets of the i-th misaligned case of a rotation: src
+// walks through the offsets, dst is always a different one, the keying material a third.
+func misPlacement(i int) placement {
+	if i < 0 {
+		i = -i
+	}
+	return placement{kind: plMis, so: misOffsets[i%5], do: misOffsets[(i+1+(i/5)%4)%5], ko: (i + 2 + (i/20)%3) % 5}
+}
+
+func (p placement) String() string {
+	switch p.kind {
+	case plHi:
+		return "hi"
+	case plLo:
+		return "lo"
+	}
+	return fmt.Sprintf("mis(src+%d,dst+%d,key+%d)", p.so, p.do, misOffsets[p.ko])
+}
+
+// short is the class-key token of the placement.
+func (p placement) short() string {
+	switch p.kind {
+	case plHi:
+		return "hi"
+	case plLo:
+		return "lo"
+	}
+	return "mis"
+}
+
+func (p placement) buf(g *mon.Guard, n, off int) []byte {
+	switch p.kind {
+	case plHi:
+		return g.Hi(n)
+	case plLo:
+		return g.Lo(n)
+	}
+	return g.Off(n, off)
+}
+
+func (p placement) putSrc(g *mon.Guard, b []byte) []byte {
+	s := p.buf(g, len(b), p.so)
+	copy(s, b)
+	return s
+}
+
+func (p placement) getDst(g *mon.Guard, n int) []byte { return p.buf(g, n, p.do) }
+
 // placed is the keying material of a case copied into guarded buffers.
 type placed struct{ key, key2, iv []byte }
 
-func (b *bufs) place(m *material, hi bool) placed {
-	return placed{b.key.Put(m.key, hi), b.key2.Put(m.key2, hi), b.iv.Put(m.iv, hi)}
+func (b *bufs) place(m *material, p placement) placed {
+	put := func(g *mon.Guard, v []byte, k int) []byte {
+		s := p.buf(g, len(v), misOffsets[(p.ko+k)%5])
+		copy(s, v)
+		return s
+	}
+	return placed{put(b.key, m.key, 0), put(b.key2, m.key2, 1), put(b.iv, m.iv, 2)}
 }
 
 // construct runs build under the panic/fault monitor and verifies that the
@@ -449,13 +526,6 @@ func lenClass(n int) string {
 		return "b64-65"
 	}
 	return "long"
-}
-
-func side(hi bool) string {
-	if hi {
-		return "hi"
-	}
-	return "lo"
 }
 
 // call describes one observed library call for the judge.
